@@ -25,7 +25,9 @@ def case_text(case, cid):
     o = [f'case {cid}', f'entry {case["entry"]}', f'device {case["device"]}', f'input {case.get("input", "")}']
     if case.get('start'):
         o.append('start ' + ','.join(case['start']))
-    if 'cap' in case and case['cap'] is not None:
+    if case.get('cap') == 'std':
+        o.append('cap std')
+    elif 'cap' in case and case['cap'] is not None:
         o.append(f'cap {case["cap"]}')
     else:
         o.append('cap none')
@@ -297,7 +299,11 @@ class Observer:
         dev = w.new_device(case['device'])
         s.install_script(dev, case)
         if entry == 'run':
-            wr = HVec(case['cap']) if case.get('cap') is not None else PassWriter()
+            if case.get('cap') == 'std':
+                wr = HVec(10 ** 9)
+                wr.std = True
+            else:
+                wr = HVec(case['cap']) if case.get('cap') is not None else PassWriter()
             rem = w.run(dev, data, wr)
             o = {'panic': None, 'events': s.events(dev), 'out': hexs(wr.items), 'rem': rem.len}
             if not (rem.len == 0 or (rem.buf is data and rem.start + rem.len == len(data))):
